@@ -445,7 +445,23 @@ def run(ctx):
             ctx.ob("R10.1", "%s|%s" % (pname, feat), ok, fn.loc(), "%s: %s" % (spec["legend"].get(feat.split(":")[0], feat), "present" if ok else "MISSING"))
         if "B:wrong-visibility" in feats:
             ctx.ob("R10.1", "%s|B|protected" % pname, False, fn.loc(), "base sub-objects must be judged with V_protected: %s" % feats["B:wrong-visibility"])
-    ctx.floor("R10.1", "predicate features", n, 28)
+    ctx.floor("R10.1", "predicate features", n, 25)
+    # X: an abstract class cannot be created as a complete object, but it is a perfectly good base-class sub-object:
+    # the test belongs to the complete-object entry points, and must NOT sit in the min_vis overloads the base-class
+    # loops call (else `struct Conc : Abs { void f() override; }` is judged non-constructible).
+    for pname, sigpart in spec.get("complete_object_entry_points", {}).items():
+        cands = [f for f in db.fns(S + pname) if ("CPPVisibility" not in f.sig) and (("CPPType" in f.sig) == ("CPPType" in sigpart))]
+        if not cands:
+            ctx.broken("complete-object entry point %s%s not found" % (pname, sigpart))
+        f = cands[0]
+        rets = [r for r in f.walk() if r.get("k") == "ret" and r.get("e") is not None and const_int(r["e"]) != 0]
+        ok = bool(rets) and all(G.gated(f, r, G.edges_where(f, G.pred_false(S + "is_abstract", "is_abstract"))) for r in rets)
+        ctx.ob("R10.1", "%s%s|X:complete-object" % (pname, sigpart), ok, f.loc(), "every non-false return is behind `!is_abstract()`")
+    for pname in ("is_default_constructible", "is_copy_constructible", "is_move_constructible"):
+        f = db.fn(S + pname, sig_contains="CPPVisibility")
+        calls = [c for c in f.walk() if c.get("k") == "call" and callee_short(c) == "is_abstract"]
+        ctx.ob("R10.1", "%s(min_vis)|X:not-for-sub-objects" % pname, not calls, f.loc(calls[0]) if calls else f.loc(),
+               "the overload that also judges base-class sub-objects %s" % ("does not test is_abstract()" if not calls else "tests is_abstract(): a concrete class derived from an abstract base is judged non-constructible"))
 
     # ------------------------------------------------------------ R10.3
     special_member_finders(ctx)
